@@ -41,6 +41,7 @@ func injectedErr(kind, op, path string) error {
 	}
 	return errInjected
 }
+
 var errIsDir = errors.New("is a directory")
 
 type memFile struct {
